@@ -162,6 +162,19 @@ def family():
     out.append((spec_e, [{'t': 'RenameAppLabel', 'old': 'vapp', 'new': 'lib', 'legacy': None, 'models': None}]))
     out.append((spec_e, [rm('Category', 'Section'),
                          {'t': 'RenameAppLabel', 'old': 'vapp', 'new': 'lib', 'legacy': None, 'models': None}]))
+    # models whose NAMES contain the app label they are moved away from (label `vapp`, models `Evapps`, `vappNote`):
+    # the label is a prefix of a reference, never a part of the model's name
+    spec_n = {'apps': [
+        {'id': 'vapp', 'models': [
+            mdl('vapp', 'Evapps', [fld('parent', 'ForeignKey', 'vapp.Evapps', null=True),
+                                   fld('peers', 'ManyToManyField', 'vapp.Evapps')]),
+            mdl('vapp', 'vappNote', [fld('about', 'ForeignKey', 'vapp.Evapps', null=True)])]},
+        {'id': 'wapp', 'models': [mdl('wapp', 'Listing', [fld('ev', 'ForeignKey', 'vapp.Evapps', null=True),
+                                                          fld('note', 'OneToOneField', 'vapp.vappNote', null=True)])]}]}
+    out.append((spec_n, [{'t': 'RenameAppLabel', 'old': 'vapp', 'new': 'lib', 'legacy': None, 'models': None}]))
+    out.append((spec_n, [{'t': 'RenameAppLabel', 'old': 'vapp', 'new': 'lib', 'legacy': None, 'models': ['Evapps', 'vappNote']}]))
+    out.append((spec_n, [{'t': 'RenameAppLabel', 'old': 'vapp', 'new': 'lib', 'legacy': 'vapp', 'models': None},
+                         {'t': 'RenameModel', 'old': 'Evapps', 'new': 'Events', 'db_table': 'vapp_evapps'}]))
     # an app installed under a custom label goes back to the label it used to have (its own legacy label)
     spec_own = copy.deepcopy(spec)
     spec_own['apps'][0]['legacy'] = 'core'
